@@ -79,6 +79,8 @@ static void fini8(void *p) { el_fini(p, 8); }
 static const MPT_STRUCT(type_traits) tr_m4 = { init4, fini4, 4 };
 static const MPT_STRUCT(type_traits) tr_m8 = { init8, fini8, 8 };
 static const MPT_STRUCT(type_traits) tr_n4 = { init4, fini4, 4 };
+/* shares the finaliser of m4/n4 but not their element size */
+static const MPT_STRUCT(type_traits) tr_q8 = { init8, fini4, 8 };
 /* destructor only (as the element type of reference_array<T>): such buffers are created with BufferNoCopy, the
  * owner constructs the elements in place */
 /* a zeroed element of this type is an empty reference: nothing to release */
@@ -121,6 +123,7 @@ static const MPT_STRUCT(type_traits) *traits_by_name(const char *s, int *ok)
 	if (!strcmp(s, "m8")) return &tr_m8;
 	if (!strcmp(s, "n4")) return &tr_n4;
 	if (!strcmp(s, "f8")) return &tr_f8;
+	if (!strcmp(s, "q8")) return &tr_q8;
 #endif
 	*ok = 0;
 	return 0;
@@ -139,6 +142,7 @@ static const char *traits_name(const MPT_STRUCT(type_traits) *t)
 	if (t == &tr_m8) return "m8";
 	if (t == &tr_n4) return "n4";
 	if (t == &tr_f8) return "f8";
+	if (t == &tr_q8) return "q8";
 #endif
 	return "?";
 }
